@@ -15,6 +15,8 @@ const GM: PortId = PortId { clock: [0, 0, 0, 0, 0, 0, 0, 0x01], port: 1 };
 pub enum Op {
     DelayTimer,
     ReturnTx { t1: u128 },
+    /// late transmit timestamp of the previous (superseded) request
+    ReturnOldTx { t1: u128 },
     Resp { who: u8, t2: RTs, t4: u128, corr: i64, two_step: bool, seq_delta: i32, for_me: bool },
     Fup { who: u8, t3: RTs, corr: i64, seq_delta: i32, for_me: bool },
     ReceiptTimer,
@@ -52,6 +54,8 @@ pub struct Scenario {
     start: u8, // 0 listening 1 master 2 slave 3 passive
     base: u128,
     ops: Vec<Op>,
+    /// complete request/timestamp rounds before the generated ops (brings the 16-bit request id near its wrap)
+    prelude_reqs: u32,
 }
 
 fn gen_scenario(t: &mut Tape) -> Scenario {
@@ -60,7 +64,7 @@ fn gen_scenario(t: &mut Tape) -> Scenario {
     let n = t.urange(2, 16);
     let mut ops = vec![];
     for _ in 0..n {
-        let op = match t.weighted(&[5, 5, 7, 6, 1, 1, 1, 1, 2, 1]) {
+        let op = match t.weighted(&[5, 5, 7, 6, 1, 1, 1, 1, 2, 1, 2]) {
             0 => Op::DelayTimer,
             1 => Op::ReturnTx { t1: gen_t(t, base) },
             2 => Op::Resp {
@@ -78,11 +82,12 @@ fn gen_scenario(t: &mut Tape) -> Scenario {
             6 => Op::SyncTimer,
             7 => Op::Bmca,
             8 => Op::CleanExchange { who: t.below(2) as u8, two_step: t.bool() },
-            _ => Op::OwnAnnounce { seq: t.below(8) as u16 },
+            9 => Op::OwnAnnounce { seq: t.below(8) as u16 },
+            _ => Op::ReturnOldTx { t1: gen_t(t, base) },
         };
         ops.push(op);
     }
-    Scenario { start, base, ops }
+    Scenario { start, base, ops, prelude_reqs: 0 }
 }
 
 struct Cur {
@@ -152,6 +157,14 @@ pub fn run_scenario(sc: &Scenario, out: &mut CaseOut) -> (usize, bool) {
     out.label(format!("start:{:?}", want_state));
     let me = node.port_id(0);
     let mut cur: Option<Cur> = None;
+    let mut old_ctx: Option<usize> = None;
+    for k in 0..sc.prelude_reqs {
+        for a in node.timer(0, TimerKind::DelayReq) {
+            if let OAction::SendEvent { ctx, .. } = a {
+                node.tx_timestamp(ctx, time_from_bits(((sc.base * NS + k as u128) << 32) | 1));
+            }
+        }
+    }
     let mut seen = node.measurements().len();
     let mut peer_meas = 0usize;
     let mut two_resp = false;
@@ -183,6 +196,9 @@ pub fn run_scenario(sc: &Scenario, out: &mut CaseOut) -> (usize, bool) {
                         if let Ok(m) = decode(data) {
                             if m.header.msg_type == T_PDELAY_REQ {
                                 found = true;
+                                if let Some(oc) = cur.as_mut().and_then(|c| c.ctx.take()) {
+                                    old_ctx = Some(oc);
+                                }
                                 cur = Some(Cur { seq: m.header.seq, ctx: Some(*ctx), t1: None, first: None, multi: false, resps: vec![], fups: vec![] });
                             }
                         }
@@ -197,6 +213,12 @@ pub fn run_scenario(sc: &Scenario, out: &mut CaseOut) -> (usize, bool) {
                 let Some(c) = cur.as_mut() else { continue };
                 let Some(ctx) = c.ctx.take() else { continue };
                 c.t1 = Some(*t1);
+                node.tx_timestamp(ctx, time_from_bits(*t1)).map(|x| x.1).unwrap_or_default()
+            }
+            Op::ReturnOldTx { t1 } => {
+                // belongs to a request that has been superseded: must not become part of the current exchange
+                let Some(ctx) = old_ctx.take() else { continue };
+                out.label("late-timestamp-of-superseded-request");
                 node.tx_timestamp(ctx, time_from_bits(*t1)).map(|x| x.1).unwrap_or_default()
             }
             Op::Resp { who, t2, t4, corr, two_step, seq_delta, for_me } => {
@@ -329,6 +351,45 @@ pub fn run_scenario(sc: &Scenario, out: &mut CaseOut) -> (usize, bool) {
 }
 
 
+/// the same histories after 65529..65536 completed request rounds: the request id wraps inside the generated ops
+pub fn case_wrap(t: &mut Tape) -> CaseOut {
+    let mut out = CaseOut::new();
+    let mut sc = gen_scenario(t);
+    // a crossing at a generated position: request k is sent, request k+1 supersedes it before k's transmit
+    // timestamp is back, then the late timestamp of k arrives, then k+1 completes with one responder
+    let pos = t.below(sc.ops.len() as u64 + 1) as usize;
+    let who = t.below(2) as u8;
+    let two_step = t.bool();
+    let b = sc.base * NS;
+    let mut crossing = vec![Op::DelayTimer, Op::DelayTimer, Op::ReturnOldTx { t1: ((b + 500_000_000) << 32) | 3 }];
+    let mut tail = vec![
+        Op::ReturnTx { t1: ((b + 1_000_010_000) << 32) | 0x8000_0001 },
+        Op::Resp { who, t2: RTs::from_ns(b + 1_000_020_000), t4: ((b + 1_000_040_000) << 32) | 0x1234, corr: 77, two_step, seq_delta: 0, for_me: true },
+    ];
+    if two_step {
+        tail.push(Op::Fup { who, t3: RTs::from_ns(b + 1_000_030_000), corr: -5, seq_delta: 0, for_me: true });
+    }
+    if t.chance(1, 3) {
+        tail.swap(0, 1); // the response overtakes the transmit timestamp
+    }
+    crossing.extend(tail);
+    let before: usize = sc.ops[..pos].iter().filter(|o| matches!(o, Op::DelayTimer | Op::CleanExchange { .. })).count();
+    // id of the first request of the crossing: 65533..=65537 (i.e. ..., 65535, 0, 1)
+    let target = 65533 + t.below(5) as u32;
+    sc.prelude_reqs = target - before as u32;
+    let mut ops: Vec<Op> = sc.ops[..pos].to_vec();
+    ops.extend(crossing);
+    ops.extend(sc.ops[pos..].iter().cloned());
+    sc.ops = ops;
+    let (n, two) = run_scenario(&sc, &mut out);
+    out.render = json!({"start_state": sc.start, "base_s": sc.base.to_string(), "prelude_request_rounds": sc.prelude_reqs, "ops": sc.ops.iter().map(|o| format!("{:?}", o)).collect::<Vec<_>>()});
+    out.label("id-wrap");
+    if two || n > 0 {
+        out.nontrivial = Some(hash_of(&format!("{}{:?}", sc.prelude_reqs, sc.ops)));
+    }
+    out
+}
+
 pub fn case(t: &mut Tape) -> CaseOut {
     let mut out = CaseOut::new();
     let sc = gen_scenario(t);
@@ -375,7 +436,7 @@ fn enumerate(ctx: &Ctx, rep: &mut Report) {
                         _ => Op::ReceiptTimer,
                     });
                 }
-                let sc = Scenario { start, base, ops };
+                let sc = Scenario { start, base, ops, prelude_reqs: 0 };
                 let mut out = CaseOut::new();
                 let (n, two) = run_scenario(&sc, &mut out);
                 total += 1;
@@ -400,11 +461,12 @@ pub fn run(ctx: &Ctx) -> i32 {
     let mut rep = Report::new();
     enumerate(ctx, &mut rep);
     run_cases(ctx, &mut rep, "sampled", ctx.cases(150_000, 5_000_000), case);
+    run_cases(ctx, &mut rep, "id-wrap", ctx.cases(600, 20_000), case_wrap);
     finish(
         Finish {
             ctx,
             level: "exploration",
-            rule: "a peer-to-peer port in each state in which the exchange runs (Listening, Master, Slave, Passive), recording filter; generated schedules over delay timer, request transmit timestamp, Pdelay_Resp / Pdelay_Resp_Follow_Up from responders R1, R2 (and R1's other port), one- or two-step, duplicated/omitted/reordered, stale ids, other requesters, receipt/announce/sync timers, BMCA, clean exchanges; plus exhaustive enumeration of all schedules of length <= 6 (thorough 7) over a 7-symbol alphabet. Oracle: exact integer formula per (request, first responder); fault rules (2)-(5) of DESIGN.md C14. Non-trivial = two responders involved or >= 1 peer-delay measurement; distinct by schedule.",
+            rule: "a peer-to-peer port in each state in which the exchange runs (Listening, Master, Slave, Passive), recording filter; generated schedules over delay timer, request transmit timestamp, Pdelay_Resp / Pdelay_Resp_Follow_Up from responders R1, R2 (and R1's other port), one- or two-step, duplicated/omitted/reordered, stale ids, other requesters, late transmit timestamps of superseded requests, receipt/announce/sync timers, BMCA, clean exchanges; part id-wrap: the same after ~65530 complete request rounds plus, at a generated position, a crossing (request k, request k+1 before k's transmit timestamp, late timestamp of k, completion of k+1) with k = 65533..65537 mod 2^16; plus exhaustive enumeration of all schedules of length <= 6 (thorough 7) over a 7-symbol alphabet. Oracle: exact integer formula per (request, first responder); fault rules (2)-(5) of DESIGN.md C14. Non-trivial = two responders involved or >= 1 peer-delay measurement; distinct by schedule.",
             assumptions: vec!["halving tolerance 1 unit of 2^-32 ns".into(), "a port may also leave Faulty through the exchange that faulted it if the first responder completes it (not asserted either way)".into()],
             min_nontrivial: 100,
         },
@@ -419,6 +481,9 @@ pub fn replay(ctx: &Ctx, path: &str) -> i32 {
         let mut rep = Report::new();
         enumerate(ctx, &mut rep);
         return if rep.violations.is_empty() { println!("replay passed"); 0 } else { println!("VIOLATION property=C14 replay={}\n  {}\n  {}", path, rep.violations[0].0.sig, rep.violations[0].0.detail); 1 };
+    }
+    if v["part"].as_str() == Some("id-wrap") {
+        return replay_file(ctx, path, case_wrap);
     }
     replay_file(ctx, path, case)
 }
